@@ -105,7 +105,7 @@ class Ctx:
         self.cur.instances += 1
         self.cur.undecided.append("%s %s: %s" % (key, where, msg))
 
-    def check(self, cond, key, where, msg, what=None, sample=None, text=False):
+    def check(self, cond, key, where, msg, what=None, sample=None, text=False, semantic=False):
         if cond:
             self.ok(what or key, sample)
         else:
